@@ -166,16 +166,18 @@ def _c12(seed, quick):
         "rule": "Directed: all placements of 1-3 sequential polls (same or fresh waker) into the four gaps of done() {before, between its two stores, before the wake, "
                 "after return} x 3 final statuses, the completer held by gates at the lock-free schedule points: 312 cases, exhaustive at that granularity. Stress: "
                 "an executor-like poller (waits for its own waker, spurious re-polls, waker changes; sometimes two tasks on one handle) vs done() with seeded delays "
-                "at the sites between done()'s steps and inside poll(). End-to-end: every acknowledgement of the C-mode mixed runs is awaited with a real waker. " + CONC_RULE,
+                "at the sites between done()'s steps and inside poll(). Interpreter: the same protocol under Miri (no hooks installed), a free-running or waiting "
+                "poller against a completer whose start is swept over 20 phases x 3 statuses x waker change (480 variants; quick: one interpreter seed, thorough: 16), "
+                "which reaches windows between adjacent instructions that have no schedule site, with data-race and UB detection. End-to-end: every acknowledgement of the C-mode mixed runs is awaited with a real waker. " + CONC_RULE,
         "explanation": "Refuted by Ready(Pending), two different Ready values, a Ready different from the status given to done(), Pending after done() returned, "
                        "Pending after Ready, a task whose last poll was Pending not being woken although done() returned (decided logically: the wake happens inside "
                        "done(), so once done() has returned the wake count must be non-zero), or an acknowledgement unresolved at quiescence.",
         "assumptions": ["'eventually completes' is restated as: resolved by the time every sent command has been acknowledged by the worker"],
         "require": ["polls_inside_gap_1", "polls_inside_gap_2", "wake_obligations_checked", "stress_polls", "acks:Accepted"],
     }
-    if not quick:
-        import sanit
-        plan["extras"] = [sanit.miri_ack_extra]
+    import sanit
+    plan["extras"] = [sanit.miri_ack_quick_extra] if quick else [sanit.miri_ack_extra]
+    plan["require"] = plan["require"] + ["miri-ack:interpreted_executions"]
     return plan
 
 
